@@ -1,0 +1,134 @@
+//go:build verif
+
+package tls
+
+// Verification hooks for the negotiation rules (property C24); add-only.
+// They expose the negotiation tables and the unexported selection functions
+// exactly as the handshake code calls them.
+
+// VerifSuiteRow is one row of a cipher suite table.
+type VerifSuiteRow struct {
+	ID    uint16
+	Flags int
+	// KA is the key agreement the row's ka() constructor returns:
+	// 0 rsa, 1 ecdhe-rsa, 2 ecdhe-ecdsa, 3 dhe-rsa, 4 dhe-dss.
+	KA int
+}
+
+func verifKAKind(s *cipherSuite) int {
+	switch ka := s.ka(VersionTLS12).(type) {
+	case *rsaKeyAgreement:
+		return 0
+	case *ecdheKeyAgreement:
+		if ka.isRSA {
+			return 1
+		}
+		return 2
+	case *dheKeyAgreement:
+		if a, ok := ka.auth.(*signedKeyAgreement); ok && a.sigType == signatureDSA {
+			return 4
+		}
+		return 3
+	}
+	return -1
+}
+
+func verifRows(t []*cipherSuite) []VerifSuiteRow {
+	out := make([]VerifSuiteRow, len(t))
+	for i, s := range t {
+		out[i] = VerifSuiteRow{ID: s.id, Flags: s.flags, KA: verifKAKind(s)}
+	}
+	return out
+}
+
+// VerifNegotiationTables is the data the negotiation rules are driven by.
+type VerifNegotiationTables struct {
+	SupportedVersions        []uint16
+	Implemented              []VerifSuiteRow // implementedCipherSuites (cipherSuiteByID scans this, first match wins)
+	Advertisable             []VerifSuiteRow // cipherSuites (makeClientHello filters the configured list by this)
+	TLS13                    [][2]uint16     // cipherSuitesTLS13: id, crypto.Hash
+	DefaultSuites            []uint16
+	DefaultSuitesTLS13       []uint16
+	HasAESGCMHardwareSupport bool
+	AESGCM                   []uint16
+	NonAESGCMAEAD            []uint16
+	FlagECDHE, FlagECSign    int
+	FlagTLS12, FlagECDSA     int
+	FlagDSS, FlagDefaultOff  int
+	FallbackSCSV             uint16
+	CanaryTLS12, CanaryTLS11 string
+	DefaultCurves            []CurveID
+}
+
+func VerifC24Tables() VerifNegotiationTables {
+	t := VerifNegotiationTables{
+		SupportedVersions:        append([]uint16(nil), supportedVersions...),
+		Implemented:              verifRows(implementedCipherSuites),
+		Advertisable:             verifRows(cipherSuites),
+		DefaultSuites:            append([]uint16(nil), defaultCipherSuites()...),
+		DefaultSuitesTLS13:       append([]uint16(nil), defaultCipherSuitesTLS13()...),
+		HasAESGCMHardwareSupport: hasAESGCMHardwareSupport,
+		FlagECDHE:                suiteECDHE, FlagECSign: suiteECSign, FlagTLS12: suiteTLS12,
+		FlagECDSA: suiteECDSA, FlagDSS: suiteDSS, FlagDefaultOff: suiteDefaultOff,
+		FallbackSCSV: TLS_FALLBACK_SCSV,
+		CanaryTLS12:  downgradeCanaryTLS12, CanaryTLS11: downgradeCanaryTLS11,
+		DefaultCurves: append([]CurveID(nil), defaultCurvePreferences...),
+	}
+	for _, s := range cipherSuitesTLS13 {
+		t.TLS13 = append(t.TLS13, [2]uint16{s.id, uint16(s.hash)})
+	}
+	for id := 0; id < 0x10000; id++ {
+		if aesgcmCiphers[uint16(id)] {
+			t.AESGCM = append(t.AESGCM, uint16(id))
+		}
+		if nonAESGCMAEADCiphers[uint16(id)] {
+			t.NonAESGCMAEAD = append(t.NonAESGCMAEAD, uint16(id))
+		}
+	}
+	return t
+}
+
+func VerifSupportedVersions(c *Config) []uint16         { return c.supportedVersions() }
+func VerifMaxSupportedVersion(c *Config) uint16         { return c.maxSupportedVersion() }
+func VerifSupportedVersionsFromMax(max uint16) []uint16 { return supportedVersionsFromMax(max) }
+func VerifCipherSuitesTLS13(c *Config) []uint16         { return c.cipherSuitesTLS13() }
+func VerifDeprioritizeAES(ids []uint16) []uint16        { return deprioritizeAES(ids) }
+func VerifAESGCMPreferred(ids []uint16) bool            { return aesgcmPreferred(ids) }
+func VerifMutualProtocol(protos, pref []string) string  { return mutualProtocol(protos, pref) }
+func VerifMutualVersion(c *Config, peer []uint16) (uint16, bool) {
+	return c.mutualVersion(peer)
+}
+
+// VerifCipherSuiteOk evaluates the server's admissibility filter for one
+// implemented suite under the given negotiated version and key capabilities.
+func VerifCipherSuiteOk(id, vers uint16, ecdheOk, ecSignOk, rsaDecryptOk, rsaSignOk bool) (known, ok bool) {
+	s := cipherSuiteByID(id)
+	if s == nil {
+		return false, false
+	}
+	hs := &serverHandshakeState{c: &Conn{vers: vers}, ecdheOk: ecdheOk, ecSignOk: ecSignOk,
+		rsaDecryptOk: rsaDecryptOk, rsaSignOk: rsaSignOk}
+	return true, hs.cipherSuiteOk(s)
+}
+
+// VerifSelectCipherSuite runs selectCipherSuite with the server's filter.
+func VerifSelectCipherSuite(ids, supported []uint16, vers uint16, ecdheOk, ecSignOk, rsaDecryptOk, rsaSignOk bool) (uint16, bool) {
+	hs := &serverHandshakeState{c: &Conn{vers: vers}, ecdheOk: ecdheOk, ecSignOk: ecSignOk,
+		rsaDecryptOk: rsaDecryptOk, rsaSignOk: rsaSignOk}
+	s := selectCipherSuite(ids, supported, hs.cipherSuiteOk)
+	if s == nil {
+		return 0, false
+	}
+	return s.id, true
+}
+
+// VerifClientHelloSuites returns the version and cipher suite list a client
+// with this configuration puts in its ClientHello.
+func VerifClientHelloSuites(cfg *Config) (vers uint16, suites []uint16, versions []uint16, err error) {
+	c := &Conn{config: cfg, isClient: true}
+	h, _, err := c.makeClientHello()
+	if err != nil {
+		return 0, nil, nil, err
+	}
+	return h.vers, h.cipherSuites, h.supportedVersions, nil
+}
